@@ -238,7 +238,12 @@ impl PerVisibleAlphabetConstraints {
 }
 
 fn find_string_index(value: &str, char_set: &BTreeMap<usize, char>) -> Result<usize, GrammarError> {
-    let as_char = value.chars().next().unwrap();
+    let as_char = value.chars().next().ok_or_else(|| {
+        GrammarError::new(
+            "Empty string as endpoint of a permitted alphabet range",
+            GrammarErrorType::UnpackingError,
+        )
+    })?;
     find_char_index(char_set, as_char)
 }
 
